@@ -78,6 +78,7 @@ PROPS["C01"] = dict(
     steps=[
         dict(test="^Test(Regress_C01|C01_Generated)$", quick=dict(checks=3000, timeout=900), thorough=dict(checks=40000, shards=12, timeout=3000)),
         dict(test="^TestC01_Sweep$", quick=dict(timeout=900), thorough=dict(shards=4, timeout=1800)),
+        dict(test="^TestC01_Concurrent$", quick=dict(checks=40, timeout=900), thorough=dict(checks=600, shards=4, timeout=3000)),
     ],
 )
 
